@@ -5,6 +5,7 @@ from __future__ import annotations
 
 import ast
 import itertools
+import re
 
 from .. import guards, refs, util
 from ..core import AnalysisError, FuncTypes, dotted, norm, positional_params, walk_no_nested
@@ -1342,3 +1343,178 @@ def c25_names(R):
                         f"rebalanced comparison is not implied by the original one",
                     )
     R.need(n >= 10, f"only {n} polarity-named assignments found in the balancer")
+
+
+# ----------------------------------------------------------------------------- C25.valid
+
+_CMP_OPS = {"ULT", "ULE", "UGT", "UGE", "SLT", "SLE", "SGT", "SGE", "__eq__", "__ne__"}
+
+# arm -> (comparison operators for which the rewrite is an implication without any further condition,
+#         the operand a range condition has to talk about otherwise, the argument in one line)
+_BALANCE_ARMS = {
+    "_balance_reverse": ({"__eq__", "__ne__"}, None, "byte reversal is a bijection: it preserves (in)equality and no order"),
+    "_balance_add": (
+        {"__eq__", "__ne__"},
+        (("lhs", "truism.args[0]"),),
+        "x + k OP c  =>  x OP c - k holds for every x only for == and !=; for an order comparison it fails where x + k wraps",
+    ),
+    "_balance_sub": (
+        {"__eq__", "__ne__"},
+        (("lhs", "truism.args[0]", "new_lhs"),),
+        "x - k OP c  =>  x OP c + k holds for every x only for == and !=; for an order comparison it fails where x - k wraps",
+    ),
+    "_balance_zeroext": (set(), (("truism.args[1]", "other_side"),), "zext(x) OP c => x OP low(c) needs the high bits of c to be 0"),
+    "_balance_signext": (set(), (("truism.args[1]", "other_side"), ("truism.args[0]", "left_side")), "sext(x) OP c => x OP low(c) needs c to be a sign extension too"),
+    "_balance_extract": (
+        {"UGE", "UGT", "__ne__"},
+        (("inner", "left_msb", "left_lsb"),),
+        "x[h:0] OP c => x OP zext(c) holds for every x only for >=, > and != (x >= x[h:0]); otherwise the dropped high bits must be 0",
+    ),
+    "_balance_concat": (set(), (("left_msb", "truism.args[0]"), ("right_msb", "truism.args[1]")), "(a .. b) OP c => b OP low(c) needs a == 0 and the high bits of c == 0"),
+    "_balance_lshift": (
+        set(),
+        (("expr", "lhs.args[0]"),),
+        "(x << k) OP c => x OP (c >> k) needs the k high bits of x to be 0 (they are shifted out), besides the low bits of c",
+    ),
+}
+_BALANCE_EXACT = {
+    "_balance_and": "rewrites the left side to an equal expression (x & 0 = 0, zext(a) & ones = zext(a)); any operator is fine",
+    "_balance_if": "splits on the VSA truth of both branches; covered by C25.unsat",
+}
+
+
+def _is_width_call(n):
+    return isinstance(n, ast.Call) and (dotted(n.func) == "len" or (isinstance(n.func, ast.Attribute) and n.func.attr == "size"))
+
+
+def _value_names(node):
+    """names whose *value* feeds `node` (a width taken with len()/.size() is not a use of the value)"""
+    out, stack = set(), [node]
+    while stack:
+        n = stack.pop()
+        if _is_width_call(n):
+            continue
+        if isinstance(n, ast.Name):
+            out.add(n.id)
+        stack.extend(ast.iter_child_nodes(n))
+    return out
+
+
+def _value_text(node):
+    import copy
+
+    class Strip(ast.NodeTransformer):
+        def visit_Call(self, n):
+            if _is_width_call(n):
+                return ast.Name(id="_WIDTH_", ctx=ast.Load())
+            return self.generic_visit(n)
+
+    return ast.unparse(ast.fix_missing_locations(Strip().visit(copy.deepcopy(node))))
+
+
+def _vsa_fact_subjects(fn):
+    """names of locals whose value comes out of a VSA query (claripy.backends.vsa.<q>(..)) -> the query's argument text"""
+    out = {}
+    for st in walk_no_nested(fn):
+        if isinstance(st, ast.Assign) and len(st.targets) == 1 and isinstance(st.targets[0], ast.Name):
+            for c in ast.walk(st.value):
+                if isinstance(c, ast.Call) and (dotted(c.func) or "").startswith("claripy.backends.vsa."):
+                    out[st.targets[0].id] = ast.unparse(c)
+    return out
+
+
+@rule(
+    "C25.valid",
+    props=("C25",),
+    floor=10,
+    family="GRD",
+    desc="every rewrite `f(x) OP c  ->  x OP g(c)` of the balancer is an implication: the rebuilt comparison is "
+    "returned only under a restriction of OP to the operators for which the rewrite holds for every x, or under a "
+    "VSA range fact about the operand whose bits the rewrite discards (per arm: reverse, add, sub, zero/sign "
+    "extension, extract, concat, shift)",
+)
+def c25_valid(R):
+    tree = R.tree
+    m = tree.mod(BAL)
+    cls = tree.cls(BAL, "Balancer")
+    ms = util.methods_of(cls)
+    arms = {n: f for n, f in ms.items() if n.startswith("_balance_")}
+    n = 0
+    for name, fn in sorted(arms.items()):
+        if name in _BALANCE_EXACT:
+            R.ok(m, fn, f"{name}: {_BALANCE_EXACT[name]}")
+            n += 1
+            continue
+        if name not in _BALANCE_ARMS:
+            R.bad(m, fn, f"new balance arm {name}: its rewrite has to be justified (operators it is valid for / range condition) and added to the table", construct=f"unclassified arm {name}")
+            continue
+        valid_ops, subjects, why = _BALANCE_ARMS[name]
+        vsa_locals = _vsa_fact_subjects(fn)
+        assigns = {}
+        for st in walk_no_nested(fn):
+            if isinstance(st, ast.Assign) and len(st.targets) == 1 and isinstance(st.targets[0], ast.Name):
+                assigns.setdefault(st.targets[0].id, []).append(st.value)
+        rebuilt = [
+            r
+            for r in walk_no_nested(fn)
+            if isinstance(r, ast.Return)
+            and isinstance(r.value, ast.Call)
+            and (dotted(r.value.func) or "") == "Bool"
+            and r.value.args
+            and ast.unparse(r.value.args[0]) == "truism.op"
+        ]
+        for r in rebuilt:
+            n += 1
+            allowed = set(_CMP_OPS)
+            range_fact = None
+            covered = {}
+            held = [ast.unparse(t) for t, pol in guards.guards_of(r) if pol]
+            for t, pol in guards.guards_of(r):
+                txt = ast.unparse(t)
+                # operator restrictions
+                if isinstance(t, ast.Compare) and len(t.ops) == 1 and ast.unparse(t.left) == "truism.op":
+                    c = t.comparators[0]
+                    vals = None
+                    if isinstance(c, ast.Constant):
+                        vals = {c.value}
+                    elif isinstance(c, (ast.Tuple, ast.List, ast.Set)):
+                        vals = {e.value for e in c.elts if isinstance(e, ast.Constant)}
+                    if vals is not None:
+                        positive = isinstance(t.ops[0], (ast.In, ast.Eq)) == pol
+                        if isinstance(t.ops[0], (ast.In, ast.NotIn, ast.Eq, ast.NotEq)):
+                            allowed = allowed & vals if positive else allowed - vals
+                # range facts: a VSA query, directly or through a local, that holds (polarity True) on this path
+                if not pol:
+                    continue
+                queries = [ast.unparse(c) for c in ast.walk(t) if isinstance(c, ast.Call) and (dotted(c.func) or "").startswith("claripy.backends.vsa.")]
+                queries += [vsa_locals[x.id] for x in ast.walk(t) if isinstance(x, ast.Name) and x.id in vsa_locals]
+                for q in queries:
+                    if subjects is None:
+                        continue
+                    qnode = ast.parse(q, mode="eval").body
+                    closure = _value_names(qnode)
+                    texts = [q]
+                    for _ in range(3):
+                        for nm in list(closure):
+                            for v in assigns.get(nm, ()):
+                                closure |= _value_names(v)
+                                texts.append(_value_text(v))
+                    for gi, group in enumerate(subjects):
+                        for subj in group:
+                            pat = re.compile(r"(?<![\w.])" + re.escape(subj) + r"(?![\w])")
+                            if subj in closure or any(pat.search(tx) for tx in texts):
+                                covered[gi] = q
+            range_fact = "; ".join(covered[g] for g in sorted(covered)) if subjects is not None and len(covered) == len(subjects) else None
+            ok = allowed <= valid_ops or range_fact is not None
+            R.check(
+                ok,
+                m,
+                r,
+                f"{name}: rebuilt comparison is implied by the original ({'operators ' + str(sorted(allowed)) if allowed <= valid_ops else 'range fact ' + str(range_fact)})",
+                f"Balancer.{name} returns `{norm(r.value)}` for the operators {sorted(allowed - valid_ops)} without a range "
+                f"condition on the operand whose bits are lost: {why}. A value of x that satisfies the original "
+                f"constraint falls outside the bound derived from the rewritten one (or the constraint is reported "
+                f"unsatisfiable)",
+                construct=f"{name}: {norm(r.value)} for {sorted(allowed - valid_ops)} under [{'; '.join(held)}]",
+            )
+    R.need(n >= 10, f"only {n} balance rewrites found")
